@@ -8,8 +8,11 @@ and grain; parallel_scan runs the final pass exactly once per element with the c
 returns the full reduction; parallel_sort leaves a sorted permutation for every input and strict weak order.
 -/
 import TbbVerif.Proofs.C06.Det
+import TbbVerif.Proofs.C06.DetAll
 import TbbVerif.Proofs.C06.Sort
 import TbbVerif.Proofs.C06.ScanGen
+import TbbVerif.Proofs.C06.SPTop
+import TbbVerif.Proofs.C06.SPPre3
 
 namespace TbbVerif.C06
 
@@ -88,8 +91,9 @@ example :
 
 /-! ## parallel_deterministic_reduce -/
 
-/-- **The split/join tree is a function of (range, grain) only** (plus the partition divisor for
-static_partitioner, which is fixed by the arena's concurrency): for every schedule, once the task tree is
+/-- **The split/join tree is a function of (range, grain) only** (plus the partition divisor `d` for
+static_partitioner, which is read ONCE at entry from the arena: `max_concurrency()`; nothing else from the arena, the thread
+count or the schedule enters): for EVERY range, grain, divisor and schedule, once the task tree is
 folded the user's body holds exactly the free-magma term `detTerm g static init lo hi d` — no associativity
 used, so even non-associative operations give bit-identical results across runs, thread counts and steal
 patterns; and the in-order leaves of that term are the range in order. -/
@@ -105,6 +109,35 @@ theorem det_reduce_tree_fixed (g : Nat) (static : Bool) (lo hi d : Nat) (sched :
   · intro hle
     have := Det.flat_detTerm g static (hi - lo) .init lo hi d (Nat.le_refl _) hle
     simpa [Det.flat] using this
+
+/-- **No bound on the range or the divisor.**  `detTerm` is defined with the proportional split of `blocked_range` evaluated in
+binary32 exactly as coded (`C05.propRightPart`, round-to-nearest-even after each operation) for EVERY size and proportion; for
+static_partitioner (`partition_type_base::execute` + `proportional_mode`: `right = my_divisor/2`, `left = my_divisor - right`)
+every divisible range of fewer than 2^64 elements IS split while the divisor exceeds 1, strictly inside the range — so the model
+never deviates from the code by suppressing a split, and `det_reduce_tree_fixed` covers every `n`, every grain size and every
+divisor `1 < d < 2^24` (and, trivially, `d ≤ 1`). -/
+theorem det_static_split_always_defined (g lo hi d : Nat) (hg : 1 ≤ g) (hdiv : g < hi - lo) (hsz : hi - lo < 2 ^ 64)
+    (h1 : 1 < d) (h2 : d < 2 ^ 24) :
+    ∃ mid, Det.splitOf g true lo hi d = some (mid, d - d / 2, d / 2) ∧ lo < mid ∧ mid < hi :=
+  Det.splitOf_static_some g lo hi d hg hdiv hsz h1 h2
+
+/-- simple_partitioner: the split/join tree is a function of (range, grain) ONLY — whatever the concurrency -/
+theorem det_reduce_simple_independent_of_concurrency (g : Nat) (v : Det.Val) (lo hi d d' : Nat) :
+    Det.detTerm g false v lo hi d = Det.detTerm g false v lo hi d' :=
+  Det.detTerm_simple_indep g (hi - lo) v lo hi d d' (Nat.le_refl _)
+
+/-- **static_partitioner: the tree is NOT a function of (range, grain) only.**  Its initial divisor is
+`get_initial_auto_partitioner_divisor() / 4 = max_concurrency()` of the arena the call runs in; with concurrency 1 a divisible
+range is not split at all, with any concurrency `1 < d < 2^24` it is: the two terms differ, so a non-associative (floating-point)
+reduction may — and on the real library does — give different bits in arenas of different concurrency.  The property text
+("depends only on the range and grain size … across thread counts") therefore holds for static_partitioner only at FIXED
+concurrency (`det_reduce_tree_fixed` with the divisor as a parameter); see KNOWN_FINDINGS `det:static-partitioner:arena-concurrency`. -/
+theorem det_reduce_static_depends_on_concurrency (g : Nat) (v : Det.Val) (lo hi d : Nat) (hg : 1 ≤ g) (hdiv : g < hi - lo)
+    (hsz : hi - lo < 2 ^ 64) (h1 : 1 < d) (h2 : d < 2 ^ 24) :
+    Det.detTerm g true v lo hi 1 ≠ Det.detTerm g true v lo hi d := by
+  obtain ⟨mid, hs, _, _⟩ := Det.splitOf_static_some g lo hi d hg hdiv hsz h1 h2
+  rw [Det.detTerm_static_one, Det.detTerm_some hs]
+  intro h; cases h
 
 /-! Non-vacuity: two different schedules (rightmost-first, leftmost-first) of a 5-leaf tree. -/
 example :
@@ -125,7 +158,7 @@ theorem qsort_split_partitions (lt : QS.Cmp) (hs : QS.SWO lt) (a : Array Nat) (h
       (∀ k, k < j → lt (QS.el a' j) (QS.el a' k) = false) ∧
       (∀ k, j < k → k < a.size → lt (QS.el a' k) (QS.el a' j) = false) ∧
       j + 1 + (a.size - (j + 1)) = a.size ∧ j < a.size ∧ a.size - (j + 1) < a.size := by
-  obtain ⟨a', j, h1, h2, h3, h4, h5, h6⟩ := QS.splitRange_spec lt hs a hn
+  obtain ⟨a', j, h1, h2, h3, h4, h5, h6⟩ := QS.splitRange_spec lt hs.toAsym a hn
   exact ⟨a', j, h1, h2, h3, h4, h5, h6, by omega, h4, by omega⟩
 
 example : QS.splitRange (fun x y => decide (x < y)) #[5, 3, 8, 1, 9, 2, 7, 4] = some (#[1, 3, 2, 4, 9, 8, 7, 5], 3) := by decide
@@ -232,6 +265,68 @@ example :
     QS.serialProbe lt #[1, 1, 1, 0, 0, 0, 0, 0, 0, 0, 0, 0] = true ∧
     QS.probeTrace lt #[1, 1, 1, 0, 0, 0, 0, 0, 0, 0, 0, 0] = [(1, 0), (2, 1), (3, 2)] := by decide
 
+
+/-- **The inner scans never leave `[begin,end)`** — the sentinel argument, exactly as coded.  `split_range` swaps the pseudo-median
+of nine to the front, so `array[0]` is the pivot: the downward scan `do { --j; } while (comp(*first, array[j]))` stops at
+index 0 at the latest because `comp(pivot, pivot)` is false (irreflexivity), and — once `i` has moved — at `i` at the latest
+because everything at positions `1..i` was either passed by the upward scan (`comp(x, pivot)`, hence not `comp(pivot, x)` by
+asymmetry) or swapped in from the right (not `comp(pivot, x)`); the upward scan is bounded by the explicit `i == j` test.
+So for EVERY asymmetric comparator — every strict weak ordering and every strict PARTIAL order, including those whose
+incomparability is not transitive — the model never reports an access outside the array (`splitRange ≠ none`; `none` is also
+what the `i <= j` assertion of the source stands for), the result is a permutation, the pivot position is inside, nothing left of
+the pivot is preceded by it... and nothing right of it precedes it.  (A comparator that is not asymmetric, e.g. `<=`, is outside
+this quantifier — and outside the C++ requirements: on all-equal input the downward scan then runs below `begin`, in the
+model (`none`) and on the real code.) -/
+theorem sort_partition_in_bounds (lt : QS.Cmp) (hs : QS.Asym lt) (a : Array Nat) (hn : 0 < a.size) :
+    ∃ a' j, QS.splitRange lt a = some (a', j) ∧ a'.Perm a ∧ a'.size = a.size ∧ j < a.size ∧
+      (∀ k, k < j → lt (QS.el a' j) (QS.el a' k) = false) ∧
+      (∀ k, j < k → k < a.size → lt (QS.el a' k) (QS.el a' j) = false) :=
+  QS.splitRange_spec lt hs a hn
+
+/-- a strict partial order that is not a strict weak ordering (incomparability is not transitive: 0 ~ 1 ~ 2 but 0 < 2)
+is covered by `sort_partition_in_bounds` -/
+example : QS.Asym (fun x y => decide (x + 1 < y)) ∧ ¬ QS.SWO (fun x y => decide (x + 1 < y)) := by
+  refine ⟨⟨by intro x; simp, by intro x y h; simp at *; omega⟩, ?_⟩
+  intro h
+  have := h.negtrans 0 1 2 (by decide) (by decide)
+  simp at this
+
+/-- **The coded split partitions** (the name asked for; same statement as `qsort_split_partitions`): for every strict weak
+ordering and non-empty range — pivot choice by pseudo-median of nine, swap to the front, Hoare loop with its two inner scans,
+final swap of the pivot to `j` — left part `≤` pivot `≤` right part under the order, multiset preserved, pivot in neither part,
+sizes `j` and `size - (j+1)` both strictly smaller than the whole: the recursion terminates. -/
+theorem sort_split_partitions (lt : QS.Cmp) (hs : QS.SWO lt) (a : Array Nat) (hn : 0 < a.size) :
+    ∃ a' j, QS.splitRange lt a = some (a', j) ∧ a'.Perm a ∧ a'.size = a.size ∧ j < a.size ∧
+      (∀ k, k < j → lt (QS.el a' j) (QS.el a' k) = false) ∧
+      (∀ k, j < k → k < a.size → lt (QS.el a' k) (QS.el a' j) = false) ∧
+      j + 1 + (a.size - (j + 1)) = a.size ∧ j < a.size ∧ a.size - (j + 1) < a.size :=
+  qsort_split_partitions lt hs a hn
+
+/-- the canonical split oracle: split as long as `quick_sort_range::is_divisible()` says so (depth `n` is never exhausted on
+an array of `n` elements because both parts of a split are strictly smaller) -/
+def QS.Dec.full : Nat → QS.Dec
+  | 0 => .leaf
+  | n + 1 => .split (QS.Dec.full n) (QS.Dec.full n)
+
+/-- **parallel_sort's quicksort, recursing over the coded split as far as `is_divisible()` allows, sorts every input** for every
+strict weak ordering (instance of `sort_sorted_permutation`, which holds for EVERY pattern of split decisions — the recursion is
+well-founded because `sort_split_partitions` makes both parts strictly smaller; leaves are `std::sort`, assumed to meet its contract) -/
+theorem sort_sorted_permutation_coded (lt : QS.Cmp) (hs : QS.SWO lt) (leafSort : Array Nat → Array Nat)
+    (hleaf : ∀ a, (leafSort a).Perm a ∧ QS.Sorted lt (leafSort a).toList) (a : Array Nat) :
+    ∃ r, QS.psort lt leafSort (QS.Dec.full a.size) a = some r ∧ r.Perm a ∧ QS.Sorted lt r.toList :=
+  sort_sorted_permutation lt hs leafSort hleaf _ a
+
+/-- **The early exit of the pretest is sound**: `parallel_sort` on `n ≥ min_parallel_size` elements returns WITHOUT sorting only
+if the serial probe did not fire and, after all chunks of `quick_sort_pretest_body` have returned (any interleaving), the context is
+not cancelled — and then, for a strict weak ordering, the input is already a sorted permutation of itself. -/
+theorem pretest_early_exit_sound (lt : QS.Cmp) (hs : QS.SWO lt) (a : Array Nat) (chunks : List (Nat × Nat)) (sched : List Nat)
+    (_hpar : QS.serialPath a.size = false)
+    (htile : QS.tiles QS.pretestBegin chunks a.size) (hprobe : QS.serialProbe lt a = false)
+    (hdone : QS.pretestDone (QS.pretestRun lt a chunks sched) = true)
+    (hnc : (QS.pretestRun lt a chunks sched).cancelled = false) :
+    a.Perm a ∧ QS.Sorted lt a.toList :=
+  ⟨Array.Perm.refl a, (pretest_covers_every_adjacent_pair lt a chunks sched htile hprobe hdone hnc).2 hs⟩
+
 /-! ## parallel_scan -/
 
 /-- **Scan: one final pass per element, with the right prefix, for EVERY oracle.**  For every grain ≥ 1, every
@@ -288,5 +383,110 @@ example :
 theorem scan_no_steal (g : Nat) (hg : 1 ≤ g) (o : Scan.Oracle) (_ho : ∀ lo hi, o.stolen lo hi = false ∧ o.early lo hi = false)
     (lo hi : Nat) (hle : lo ≤ hi) : Scan.ScanOK lo hi (Scan.scan g o lo hi) :=
   scan_final_once_with_prefix g hg o lo hi hle
+
+/-! ## parallel_scan as a task protocol (small-step, every execution order) -/
+
+/-- **Scan, the full task protocol: one final pass per element with the right prefix, for EVERY schedule.**
+`SP.run g lo hi sched` executes `start_scan::run` over `[lo,hi)` with grain `g`: `sched` lists which task performs which
+serialised piece of its `execute` when — entry of a `start_scan` (`treat_as_stolen`, the GENERATED guard, evaluated on
+an arbitrary `is_stolen(ed)` chosen by the schedule and on what `m_left_sum` holds at that moment), leaf body call, slot
+write + finalize, split, `finish_scan::execute`, `sum_node::execute` (both invocations), `final_sum::execute` (body call;
+assign + release), the glue of `run` — so it ranges over all steal patterns, all partitioners, re-entrant bodies and all
+execution orders the reference counts allow.  At every moment: no null `m_left_sum` / `*m_sum_slot` is dereferenced, no
+non-right child is treated as stolen, a really stolen task never reads `m_left_sum`, the two children of a sum_node never
+get the same body (`err = false`); every final scan performed so far started from exactly the in-order reduction
+`[lo, x)` of everything to its left (values live in the free monoid and are only ever built by body calls and
+`reverse_join` with the operand order of the source text — GENERATED `scanFinishJoinRecvSlot` / `scanNodeJoinRecvLeftSum` — so
+a non-commutative operation is right); and when `run` has returned the final-scan events tile `[lo,hi)` exactly once and the
+user's body holds the full reduction. -/
+theorem scan_protocol_final_once_with_prefix (g : Nat) (hg : 1 ≤ g) (lo hi : Nat) (hle : lo ≤ hi) (sched : List (List Bool × SP.Act)) :
+    (SP.run g lo hi sched).c.err = false ∧
+    (∀ f, f ∈ Scan.finals (SP.run g lo hi sched).c.log → f.2.2 = rng lo f.1) ∧
+    ((SP.run g lo hi sched).phase = 3 → Scan.ScanOK lo hi (SP.run g lo hi sched).c) := by
+  have h := SP.GI_run g lo hi hg hle sched
+  refine ⟨h.1, SP.GI_prefix h, ?_⟩
+  intro hp
+  obtain ⟨he, hph⟩ := h
+  rcases hph with ⟨p1, _⟩ | ⟨p2, _⟩ | ⟨_, v3, c3⟩
+  · rw [hp] at p1; cases p1
+  · rw [hp] at p2; cases p2
+  · exact ⟨he, v3, c3⟩
+
+/-- **parallel_scan returns the full reduction**, whatever the schedule -/
+theorem scan_returns_full_reduction (g : Nat) (hg : 1 ≤ g) (lo hi : Nat) (hle : lo ≤ hi) (sched : List (List Bool × SP.Act))
+    (hdone : (SP.run g lo hi sched).phase = 3) : (SP.run g lo hi sched).c.val 0 = rng lo hi :=
+  ((scan_protocol_final_once_with_prefix g hg lo hi hle sched).2.2 hdone).2.1
+
+/-- per element, in a completed run: exactly one final-scan event covers it (from `scan_ok_per_element`) -/
+theorem scan_protocol_each_element_once (g : Nat) (hg : 1 ≤ g) (lo hi : Nat) (hle : lo ≤ hi) (sched : List (List Bool × SP.Act))
+    (hdone : (SP.run g lo hi sched).phase = 3) (x : Nat) (h1 : lo ≤ x) (h2 : x < hi) :
+    ((Scan.finals (SP.run g lo hi sched).c.log).filter (fun f => decide (f.1 ≤ x ∧ x < f.2.1))).length = 1 :=
+  (scan_ok_per_element lo hi _ ((scan_protocol_final_once_with_prefix g hg lo hi hle sched).2.2 hdone) x h1 h2).1
+
+/-- **An element is never pre-scanned after it was scanned before** — neither after its final scan nor after an earlier pre-scan
+(so: at most one pre-scan per element, and never a pre-scan after the final scan), for every schedule.  `SP.PreOK earlier later` says:
+if `later` is a pre-scan `b(range [l,h), pre_scan_tag)` then the range of `earlier`, when `earlier` is a pre-scan or a final scan,
+is disjoint from `[l,h)`; the theorem states it for every pair of events of the log in log order.  (Pass 1 pre-scans only leaves of
+non-final tasks that have not run yet, whose ranges are disjoint from the ranges of all leaves that have; in pass 2 no `start_scan`
+task is left that could pre-scan.) -/
+theorem scan_prescan_never_after_final (g : Nat) (hg : 1 ≤ g) (lo hi : Nat) (hle : lo ≤ hi) (sched : List (List Bool × SP.Act)) :
+    (SP.run g lo hi sched).c.log.Pairwise SP.PreOK :=
+  (SP.GP_run g lo hi hg hle sched).1
+
+/-- index form of `scan_prescan_never_after_final` -/
+theorem scan_prescan_never_after_final_idx (g : Nat) (hg : 1 ≤ g) (lo hi : Nat) (hle : lo ≤ hi) (sched : List (List Bool × SP.Act))
+    (i j : Nat) (hij : i < j) (e : Scan.Ev) (b l h : Nat)
+    (hi' : (SP.run g lo hi sched).c.log[i]? = some e) (hj : (SP.run g lo hi sched).c.log[j]? = some (.pre b l h))
+    (r : Nat × Nat) (hr : SP.rangeOf e = some r) : r.2 ≤ l ∨ h ≤ r.1 := by
+  have hp := scan_prescan_never_after_final g hg lo hi hle sched
+  rw [List.pairwise_iff_getElem] at hp
+  have h1 := List.getElem?_eq_some_iff.mp hi'
+  have h2 := List.getElem?_eq_some_iff.mp hj
+  obtain ⟨hi1, he1⟩ := h1
+  obtain ⟨hj1, he2⟩ := h2
+  have := hp i j hi1 hj1 hij b l h (he2) r (by rw [he1]; exact hr)
+  exact this
+
+/-! Non-vacuity: complete schedules exist — rightmost-first with every right child stolen (8 zombies, both passes), and
+leftmost-first with nothing stolen (everything in pass 1 on `temp_body`). -/
+example :
+    let s0 := SP.init 0 8
+    let s := (SP.autoSched 1 true true 400 s0 []).foldl (SP.step 1) s0
+    s.phase = 3 ∧ s.c.err = false ∧ s.c.val 0 = [0, 1, 2, 3, 4, 5, 6, 7] ∧ s.c.heap.length = 9 ∧
+    (SP.pres s.c.log).length = 6 := by decide
+
+example :
+    let s0 := SP.init 0 8
+    let s := (SP.autoSched 1 false false 400 s0 []).foldl (SP.step 1) s0
+    s.phase = 3 ∧ s.c.val 0 = [0, 1, 2, 3, 4, 5, 6, 7] ∧ s.c.heap.length = 2 := by decide
+
+/-- **The lambda form (`lambda_scan_body`) is an instance.**  `lambda_scan_body` keeps one `Value`; its `operator()` is
+`sum = scan(range, sum, tag)`, its `reverse_join(a)` is `sum = reverse_join(a.sum, sum)` (left operand = the argument), `assign`
+copies, the split constructor starts from `identity`.  For an associative `op` with identity `e` and per-element contribution `f`
+the map `hom` below is a monoid homomorphism from the free monoid of the model onto these values, so every body of the lambda form
+holds `hom` of the model body's value: the final scan of an element starts from the in-order fold of everything to its left and the
+returned total is the in-order fold of the whole range. -/
+def scanHom {V : Type} (op : V → V → V) (e : V) (f : Nat → V) (xs : List Nat) : V := xs.foldl (fun acc x => op acc (f x)) e
+
+theorem scan_lambda_hom {V : Type} (op : V → V → V) (e : V) (f : Nat → V)
+    (hassoc : ∀ a b c, op (op a b) c = op a (op b c)) (hid : ∀ a, op a e = a) (hid' : ∀ a, op e a = a) (a b : List Nat) :
+    scanHom op e f (a ++ b) = op (scanHom op e f a) (scanHom op e f b) := by
+  unfold scanHom
+  rw [List.foldl_append]
+  have key : ∀ (bs : List Nat) (acc : V), bs.foldl (fun acc x => op acc (f x)) acc = op acc (bs.foldl (fun acc x => op acc (f x)) e) := by
+    intro bs
+    induction bs with
+    | nil => intro acc; simp [hid]
+    | cons x bs ih =>
+        intro acc
+        simp only [List.foldl_cons]
+        rw [ih (op acc (f x)), ih (op e (f x)), hid', hassoc]
+  exact key b _
+
+theorem scan_lambda_result {V : Type} (op : V → V → V) (e : V) (f : Nat → V)
+    (g : Nat) (hg : 1 ≤ g) (lo hi : Nat) (hle : lo ≤ hi) (sched : List (List Bool × SP.Act))
+    (hdone : (SP.run g lo hi sched).phase = 3) :
+    scanHom op e f ((SP.run g lo hi sched).c.val 0) = (rng lo hi).foldl (fun acc x => op acc (f x)) e := by
+  rw [scan_returns_full_reduction g hg lo hi hle sched hdone]; rfl
 
 end TbbVerif.C06
